@@ -2,8 +2,10 @@ package main
 
 import (
 	"fmt"
+	"go/ast"
 	"go/types"
 	"math/big"
+	"strconv"
 	"strings"
 
 	"golang.org/x/tools/go/ssa"
@@ -110,6 +112,30 @@ func (r *FnRun) lookupLocal(env *specEnv, name string) (Val, bool) {
 			}
 		}
 	}
+	// rangeindexK: the hidden index of the K-th range loop of the function (in
+	// source order); plain "rangeindex" is ambiguous in nested range loops
+	if strings.HasPrefix(name, "rangeindex") && len(name) > len("rangeindex") {
+		if k, err := strconv.Atoi(name[len("rangeindex"):]); err == nil {
+			n := 0
+			for _, b := range env.fr.fn.Blocks {
+				for _, in := range b.Instrs {
+					a, ok := in.(*ssa.Alloc)
+					if !ok || a.Comment != "rangeindex" {
+						continue
+					}
+					if n == k {
+						if p, ok := env.fr.vals[a].(PtrVal); ok && p.Kind == pkCell {
+							if v, ok := env.st.cells[p.Cell]; ok {
+								return v, true
+							}
+						}
+						return r.freshVal(r.cur, a.Type().(*types.Pointer).Elem(), "unborn_"+name), true
+					}
+					n++
+				}
+			}
+		}
+	}
 	var best *Cell
 	var bestPtr PtrVal
 	for v, val := range env.fr.vals {
@@ -138,6 +164,19 @@ func (r *FnRun) lookupLocal(env *specEnv, name string) (Val, bool) {
 		if v, ok := env.st.cells[best]; ok {
 			_ = bestPtr
 			return v, true
+		}
+	}
+	// a local that is never reassigned has no cell of its own; the debug
+	// references of the SSA form say which value the identifier denotes
+	for _, b := range env.fr.fn.Blocks {
+		for _, in := range b.Instrs {
+			if dr, ok := in.(*ssa.DebugRef); ok && !dr.IsAddr {
+				if id, ok := dr.Expr.(*ast.Ident); ok && id.Name == name {
+					if v, ok := env.fr.vals[dr.X]; ok {
+						return v, true
+					}
+				}
+			}
 		}
 	}
 	// a local variable of the function that has not come into existence on
@@ -797,6 +836,14 @@ func (r *FnRun) evalCall(x SCall, env *specEnv) Val {
 			top = env.old.top
 		}
 		return Gt(t, top)
+	case "first":
+		// first(s): position of s[0] inside its backing array (elems(s)[first(s)] is s[0])
+		v := r.evalSpec(x.Args[0], env)
+		s, ok := v.(SliceVal)
+		if !ok {
+			sfail("first of %T", v)
+		}
+		return r.pos(s.Off, IntLit(0))
 	case "born":
 		// born(x): the local variable x has come into existence on this path
 		// (a clause about a local that an early return never reached would
